@@ -2,13 +2,20 @@
 
 Decides (from the syntax trees of hailtop/batch_client/parse.py, batch/front_end/validate.py, hailtop/utils/validate/validate.py,
 batch/front_end/front_end.py and hailctl/config/config_variables.py; nothing of the repository is run):
-  R1  client = server.  For cpu / memory / storage: the language the job validator admits (RegexValidator semantics: object or
-      compiled pattern, matching mode used in `validate`, maxlen; anyof/oneof) EQUALS the language the parse function accepts
-      (regex + mode of its own matching call; memory additionally admits the named memory types, which the front end resolves
-      before parsing).  The parse functions return None exactly on the non-matching branch.  Every parse call in the front end
-      goes to hailtop.batch_client.parse, on a validated `resources` entry whose validator language is included in the parse
-      function's language; the literal defaults substituted for missing entries are parseable.  Every other use of the patterns
-      (hailctl config validators, ...) accepts the same language.
+  R1  client = server.  For cpu / memory / storage: the language the job validator admits EQUALS the language the parse function
+      accepts (regex + mode of its own matching call, on the parameter or on a normalised copy of it - then the preimage; memory
+      additionally admits the named memory types, which the front end resolves before parsing).  The validator language is READ
+      FROM THE LIBRARY SOURCE for whatever validator expression stands in job_validator['resources'] - inline `regex(...)`,
+      a named module-level validator object, nullable()/anyof()/oneof() wrappers, TypedValidator/TruthyValidator instances: the
+      factory's `return Cls(...)` is followed, __init__ is run symbolically, the constructor arguments (pattern, compiled regex,
+      maxlen through integer constants, ...) are substituted into a copy of the class's validate method and that method is
+      translated by engines/strpred.py - matching mode, maxlen, any further length test, stripping/lower-casing before the
+      match; length bounds are regular, the comparison stays exact.  The parse functions return None exactly on the
+      non-matching branch.  Every parse call in the front end goes to hailtop.batch_client.parse, on a validated `resources`
+      entry whose validator language is included in the parse function's language; the literal defaults substituted for missing
+      entries are parseable.  Every other use of the patterns (hailctl config validators, ...) accepts the same language.
+      validate_and_clean_jobs applies job_validator to every job, and the deprecated `pvc_size` key (validated on its own, then
+      moved into resources['storage'] and validated again) is accepted for exactly the client's storage strings.
   R2  grammar.  L(regex, fullmatch) == the documented grammar  [+]? (D+ | D* '.' D+) unit? ['B']  as automata; capture group 1 is
       exactly the unsigned decimal number, capture group 2 exactly the unit set; `conv_factor` has exactly those units as keys
       with the values 1000^n / 1024^n (constant-folded from the literal table).
@@ -17,7 +24,7 @@ batch/front_end/front_end.py and hailctl/config/config_variables.py; nothing of 
   R3  exactness.  Our own evaluator interprets each parse function body (float / int / math.ceil / Decimal / Fraction arithmetic over
       the extracted syntax tree) on a family of accepted spellings and compares with exact rational arithmetic: floor(value*1000)
       millicores, ceil(value*factor) bytes.  Every return statement is an instance; a mismatch is reported with the concrete
-      strings.  Today binary floating point makes all five value-returning statements wrong for particular decimals (finding F6).
+      strings (binary float() or a rounding Decimal context make particular decimals come out wrong).
 Does not decide: exactness outside the evaluated family when the arithmetic is not float-free.
 """
 from __future__ import annotations
@@ -41,7 +48,9 @@ META = dict(
          'and compared with exact rational arithmetic, plus a float-taint explanation.  R3 is not exhaustive over all decimals '
          '(unless the arithmetic is float-free), hence level other.',
     note='Trusted: CPython ast/re._parser; IEEE-754 double arithmetic of the running interpreter as the model of Python float; '
-         'fractions/decimal for the exact side; engines/relang.py, engines/strpred.py. Group extraction for the evaluated candidates uses the '
+         'fractions/decimal for the exact side; engines/relang.py, engines/strpred.py; the validator semantics are read from '
+         'hailtop/utils/validate/validate.py (symbolic construction + translation of the specialised validate method), with the '
+         'combinators MultipleValidator / NullableValidator recognised by shape. Group extraction for the evaluated candidates uses the '
          'platform `re` on the extracted pattern text.',
     technique='static analysis: regex-to-DFA equivalence, constant folding, abstract/concrete interpretation of extracted arithmetic',
     design_ref='DESIGN.md §3 C25',
@@ -101,8 +110,15 @@ class ParseFn:
                 found.append((c, rc))
         ctx.need(len(found) == 1, f'{self.name}: expected exactly one regex matching call, found {len(found)}')
         self.call, (self.rd, self.mode, subject) = found[0]
-        ctx.need(isinstance(subject, ast.Name) and subject.id == self.param, f'{self.name}: the regex is not applied to the parameter')
-        self.lang = R.from_regex(self.rd.pattern, self.rd.flags, self.mode)
+        self.subject = subject
+        # the regex is applied to the parameter, or to a normalised copy of it (s.strip(), s.lower(), ...): then the accepted
+        # strings are the preimage of the regex language
+        tr = sp.Translator(m, self.fn, self.param)
+        chain = tr.chain_of(pf.expand_locals(self.fn, subject))
+        ctx.need(chain is not None, f'{self.name}: the regex is applied to `{pf.nsrc(subject)}`, which is not the parameter or a normalised copy of it')
+        ctx.need(len(pf.assignments(self.fn).get(self.param, [])) == 1, f'{self.name}: the parameter is rebound')
+        self.normalised = bool(chain)
+        self.lang = tr.preimage(R.from_regex(self.rd.pattern, self.rd.flags, self.mode), chain)  # type: ignore[arg-type]
         self.full = R.from_regex(self.rd.pattern, self.rd.flags, 'fullmatch')
 
 
@@ -169,134 +185,435 @@ def _check_none_iff_no_match(ctx: Ctx, p: ParseFn) -> None:
 # --------------------------------------------------------------------------------------
 
 
+class _Val:
+    """An argument expression together with the module it is written in."""
+    __slots__ = ('m', 'e')
+
+    def __init__(self, m: pf.Module, e: ast.AST):
+        self.m = m
+        self.e = e
+
+
+def _is_re_compile(e: ast.AST) -> bool:
+    return isinstance(e, ast.Call) and pf.dotted(e.func) == 're.compile'
+
+
+def _truth(e: ast.AST) -> Optional[bool]:
+    """Truth value of a closed expression when it is known without evaluating anything."""
+    if isinstance(e, ast.Constant):
+        return bool(e.value)
+    if _is_re_compile(e):
+        return True  # a compiled pattern is an object without __bool__/__len__
+    if isinstance(e, (ast.Tuple, ast.List, ast.Set)):
+        return bool(e.elts)
+    return None
+
+
+class _Fold(ast.NodeTransformer):
+    """Constant folding of the tests left over after the constructor arguments have been substituted into a method body:
+    `<closed> is [not] None`, not/and/or/if-else over known truth values.  Only the truth value of the result is preserved."""
+
+    def visit_Compare(self, node: ast.Compare):  # noqa: N802
+        self.generic_visit(node)
+        if len(node.ops) == 1 and isinstance(node.ops[0], (ast.Is, ast.IsNot)) and isinstance(node.comparators[0], ast.Constant) \
+                and node.comparators[0].value is None:
+            left = node.left
+            known: Optional[bool] = None
+            if isinstance(left, ast.Constant):
+                known = left.value is None
+            elif _is_re_compile(left) or isinstance(left, (ast.Tuple, ast.List, ast.Set)):
+                known = False
+            if known is not None:
+                return ast.copy_location(ast.Constant(value=known == isinstance(node.ops[0], ast.Is)), node)
+        return node
+
+    def visit_UnaryOp(self, node: ast.UnaryOp):  # noqa: N802
+        self.generic_visit(node)
+        if isinstance(node.op, ast.Not) and _truth(node.operand) is not None:
+            return ast.copy_location(ast.Constant(value=not _truth(node.operand)), node)
+        return node
+
+    def visit_IfExp(self, node: ast.IfExp):  # noqa: N802
+        self.generic_visit(node)
+        t = _truth(node.test)
+        if t is not None:
+            return node.body if t else node.orelse
+        return node
+
+    def visit_BoolOp(self, node: ast.BoolOp):  # noqa: N802
+        self.generic_visit(node)
+        is_and = isinstance(node.op, ast.And)
+        kept: List[ast.expr] = []
+        for i, v in enumerate(node.values):
+            t = _truth(v)
+            if t is None:
+                kept.append(v)
+                continue
+            if t != is_and:  # decides the result (as far as it is reached)
+                kept.append(v)
+                break
+            if i == len(node.values) - 1:
+                kept.append(v)  # neutral element in last position: it is the value
+        if len(kept) == 1:
+            return kept[0]
+        node.values = kept
+        return node
+
+
 class ValidatorLib:
-    """Semantics of hailtop.utils.validate read from its source: regex() -> RegexValidator(pattern, re_obj, maxlen);
-    RegexValidator.validate: len(obj) <= maxlen and re_obj.<mode>(obj)."""
+    """Semantics of the validator objects of hailtop.utils.validate, READ FROM ITS SOURCE for every validator expression:
+    a factory call (`regex(p, r, maxlen=n)`) is followed through the factory's `return Cls(...)`, the constructor is run
+    symbolically (`self.x = <expression over the parameters>`, `super().__init__(...)`), the constructor arguments are closed to
+    constants (patterns, compiled regexes, folded integers, literal collections) and substituted for `self.x` in a copy of the
+    class's `validate` method (with `super().validate(...)` inlined); what is left is a one-parameter string predicate that
+    engines/strpred.py translates into the language of accepted strings - whatever tests the class really performs (matching
+    mode, maxlen, a minlen, stripping or lower-casing before the match, ...).  The combinators MultipleValidator (anyof) and
+    NullableValidator are recognised by the shape of their validate methods and become union / the wrapped language."""
 
     def __init__(self, ctx: Ctx):
         m = pf.load(F_VLIB)
         self.m = m
-        # regex(pattern, re_obj=None, maxlen=None): return RegexValidator(pattern, re_obj, maxlen)
-        fn = m.func('regex')
-        self.regex_params = [a.arg for a in fn.args.args]
-        body = [s for s in fn.body if not (isinstance(s, ast.Expr) and isinstance(s.value, ast.Constant))]
-        ctx.need(len(body) == 1 and isinstance(body[0], ast.Return) and isinstance(body[0].value, ast.Call)
-                 and pf.dotted(body[0].value.func) == 'RegexValidator' and not body[0].value.keywords
-                 and all(isinstance(a, ast.Name) for a in body[0].value.args),
-                 f'{F_VLIB}::regex: expected `return RegexValidator(<params>)`')
-        ctor_args = [a.id for a in body[0].value.args]  # type: ignore[union-attr]
-        ctx.need(self.regex_params[:1] == ['pattern'] and set(ctor_args) <= set(self.regex_params), f'{F_VLIB}::regex: parameters changed')
-        self.regex_defaults = dict(zip(self.regex_params[len(self.regex_params) - len(fn.args.defaults):], fn.args.defaults))
-        init = m.func('RegexValidator.__init__')
-        iparams = [a.arg for a in init.args.args][1:]
-        ctx.need(len(iparams) == len(ctor_args), f'{F_VLIB}::RegexValidator.__init__: arity differs from the call in regex()')
-        self.to_ctor = dict(zip(iparams, ctor_args))  # ctor parameter -> regex() parameter
-        assigns = {}
+        self.ctx = ctx
+        ctx.need(sp.imports_of(m).get('re') == 're', f'{F_VLIB}: `re` is not imported as a module')
+        self.classes = {c.name: c for c in m.classes()}
+        for helper in ('regex', 'anyof', 'oneof'):
+            ctx.need(m.has_func(helper), f'{F_VLIB}::{helper} vanished')
+        self.mode: Optional[str] = None  # matching mode of the last regex validator translated (diagnostics)
+        self._cache: Dict[Tuple[int, int], Tuple[R.Lang, dict]] = {}
+
+    # ---- helpers
+    def _method(self, cls: ast.ClassDef, name: str) -> Optional[ast.FunctionDef]:
+        for st in cls.body:
+            if isinstance(st, ast.FunctionDef) and st.name == name:
+                return st
+        return None
+
+    def _base(self, cls: ast.ClassDef) -> Optional[ast.ClassDef]:
+        if not cls.bases:
+            return None
+        self.ctx.need(len(cls.bases) == 1 and isinstance(cls.bases[0], ast.Name) and cls.bases[0].id in self.classes and not cls.keywords,
+                      f'{F_VLIB}::{cls.name}: base classes not recognised')
+        return self.classes[cls.bases[0].id]  # type: ignore[union-attr]
+
+    def _lookup(self, cls: ast.ClassDef, name: str) -> Tuple[Optional[ast.FunctionDef], Optional[ast.ClassDef]]:
+        c: Optional[ast.ClassDef] = cls
+        while c is not None:
+            f = self._method(c, name)
+            if f is not None:
+                return f, c
+            c = self._base(c)
+        return None, None
+
+    def _bind(self, what: str, fn: ast.FunctionDef, skip_self: bool, args: List[_Val], kwargs: Dict[str, _Val]) -> Dict[str, Any]:
+        """parameter name -> _Val | list of _Val (for *args) ; defaults filled in."""
+        a = fn.args
+        self.ctx.need(not a.posonlyargs and not a.kwonlyargs and a.kwarg is None, f'{what}: parameter kinds not recognised')
+        params = [x.arg for x in a.args][1 if skip_self else 0:]
+        bound: Dict[str, Any] = {}
+        defaults = dict(zip([x.arg for x in a.args][len(a.args) - len(a.defaults):], a.defaults))
+        rest = list(args)
+        for p in params:
+            if rest:
+                bound[p] = rest.pop(0)
+        if a.vararg is not None:
+            bound[a.vararg.arg] = rest
+            rest = []
+        self.ctx.need(not rest, f'{what}: too many arguments')
+        for k, v in kwargs.items():
+            self.ctx.need(k in params and k not in bound, f'{what}: unexpected keyword {k}')
+            bound[k] = v
+        for p in params:
+            if p not in bound:
+                self.ctx.need(p in defaults, f'{what}: missing argument {p}')
+                bound[p] = _Val(self.m, defaults[p])
+        return bound
+
+    def _call_args(self, m: pf.Module, call: ast.Call) -> Tuple[List[_Val], Dict[str, _Val]]:
+        args: List[_Val] = []
+        for x in call.args:
+            if isinstance(x, ast.Starred):
+                args += [_Val(mm, ee) for mm, ee in self._sequence(m, x.value)]
+            else:
+                args.append(_Val(m, x))
+        self.ctx.need(all(k.arg is not None for k in call.keywords), f'{m.rel}: `{pf.nsrc(call)[:60]}`: ** arguments')
+        return args, {k.arg: _Val(m, k.value) for k in call.keywords}  # type: ignore[misc]
+
+    def _sequence(self, m: pf.Module, e: ast.AST, depth: int = 4) -> List[Tuple[pf.Module, ast.AST]]:
+        """Elements of a literal tuple/list/set expression (through names, imports and set()/list()/tuple() wrappers)."""
+        self.ctx.need(depth > 0, f'{m.rel}: cannot resolve `{pf.nsrc(e)[:60]}` to a literal collection')
+        if isinstance(e, (ast.Tuple, ast.List, ast.Set)):
+            out: List[Tuple[pf.Module, ast.AST]] = []
+            for x in e.elts:
+                if isinstance(x, ast.Starred):
+                    out += self._sequence(m, x.value, depth - 1)
+                else:
+                    out.append((m, x))
+            return out
+        if isinstance(e, ast.Call) and pf.dotted(e.func) in ('set', 'frozenset', 'list', 'tuple', 'sorted') and len(e.args) == 1 and not e.keywords:
+            return self._sequence(m, e.args[0], depth - 1)
+        if isinstance(e, ast.Name):
+            if e.id in sp.imports_of(m):
+                r = sp.resolve_import(m, e.id, sp.PACKAGE_ROOTS)
+                self.ctx.need(r is not None, f'{m.rel}: cannot follow the import of {e.id}')
+                return self._sequence(r[0], ast.Name(id=r[1], ctx=ast.Load()), depth - 1)  # type: ignore[index]
+            return self._sequence(m, sp.module_const(m, e.id), depth - 1)
+        raise AnalysisError(f'{m.rel}: `{pf.nsrc(e)[:60]}` is not a literal collection')
+
+    def _close(self, v: Any) -> ast.expr:
+        """A constructor argument as a closed expression that means the same inside the library module."""
+        if isinstance(v, list):
+            return ast.Tuple(elts=[self._close(x) for x in v], ctx=ast.Load())
+        m, e = v.m, v.e
+        if isinstance(e, ast.Constant) and (e.value is None or isinstance(e.value, (str, int, bool))):
+            return ast.Constant(value=e.value)
+        if isinstance(e, ast.Name) and e.id == 'str' and e.id not in sp.imports_of(m):
+            return ast.Name(id='str', ctx=ast.Load())
+        try:
+            return ast.Constant(value=_fold_int(m, e))
+        except AnalysisError:
+            pass
+        try:
+            return ast.Constant(value=sp.const_string(m, None, e))
+        except AnalysisError:
+            pass
+        try:
+            rd = sp.resolve_regex(m, None, e)
+            return ast.Call(func=ast.Attribute(value=ast.Name(id='re', ctx=ast.Load()), attr='compile', ctx=ast.Load()),
+                            args=[ast.Constant(value=rd.pattern), ast.Constant(value=int(rd.flags))], keywords=[])
+        except AnalysisError:
+            pass
+        try:
+            return ast.Tuple(elts=[self._close(_Val(mm, ee)) for mm, ee in self._sequence(m, e)], ctx=ast.Load())
+        except AnalysisError:
+            pass
+        raise AnalysisError(f'{m.rel}: cannot evaluate the validator argument `{pf.nsrc(e)[:60]}`')
+
+    # ---- symbolic construction
+    def _construct(self, cls: ast.ClassDef, args: List[_Val], kwargs: Dict[str, _Val]) -> Dict[str, Any]:
+        """attribute name -> _Val | [_Val] | closed expression, after running __init__ symbolically."""
+        init, owner = self._lookup(cls, '__init__')
+        if init is None:
+            self.ctx.need(not args and not kwargs, f'{F_VLIB}::{cls.name}: arguments but no __init__')
+            return {}
+        assert owner is not None
+        what = f'{F_VLIB}::{owner.name}.__init__'
+        bound = self._bind(what, init, True, args, kwargs)
+        attrs: Dict[str, Any] = {}
         for st in init.body:
-            if isinstance(st, ast.Assign) and len(st.targets) == 1 and pf.dotted(st.targets[0]) and pf.dotted(st.targets[0]).startswith('self.'):
-                assigns[pf.dotted(st.targets[0])[5:]] = st.value
-        ctx.need('re_obj' in assigns and 'maxlen' in assigns, f'{F_VLIB}::RegexValidator.__init__: self.re_obj / self.maxlen not assigned')
-        ro = pf.nsrc(assigns['re_obj'])
-        ctx.need(ro in ('re_obj if re_obj is not None else re.compile(pattern)', 're.compile(pattern) if re_obj is None else re_obj', 're_obj or re.compile(pattern)'),
-                 f'{F_VLIB}::RegexValidator.__init__: unrecognised `self.re_obj = {ro}`')
-        ctx.need(pf.nsrc(assigns['maxlen']) == 'maxlen', f'{F_VLIB}::RegexValidator.__init__: unrecognised self.maxlen assignment')
-        # validate
-        val = m.func('RegexValidator.validate')
-        vparams = [a.arg for a in val.args.args]
-        ctx.need(len(vparams) == 3, f'{F_VLIB}::RegexValidator.validate: parameters changed')
-        obj = vparams[2]
-        self.mode: Optional[str] = None
-        self.validate_line = val.lineno
-        n_raise_tests = 0
-        for st in val.body:
             if isinstance(st, ast.Expr) and isinstance(st.value, ast.Constant):
                 continue
-            if isinstance(st, ast.Expr) and pf.nsrc(st.value) == f'super().validate({vparams[1]}, {obj})':
-                continue
-            ctx.need(isinstance(st, ast.If) and not st.orelse and len(st.body) == 1 and isinstance(st.body[0], ast.Raise),
-                     f'{F_VLIB}::RegexValidator.validate: unrecognised statement `{pf.nsrc(st)[:70]}`')
-            t = pf.nsrc(st.test)  # type: ignore[union-attr]
-            if t == f'self.maxlen is not None and len({obj}) > self.maxlen':
-                n_raise_tests += 1
-                continue
-            e = st.test  # type: ignore[union-attr]
-            ctx.need(isinstance(e, ast.UnaryOp) and isinstance(e.op, ast.Not) and isinstance(e.operand, ast.Call)
-                     and isinstance(e.operand.func, ast.Attribute) and pf.dotted(e.operand.func.value) == 'self.re_obj'
-                     and e.operand.func.attr in R.MODES and [pf.nsrc(a) for a in e.operand.args] == [obj] and not e.operand.keywords,
-                     f'{F_VLIB}::RegexValidator.validate: unrecognised test `{t}`')
-            ctx.need(self.mode is None, f'{F_VLIB}::RegexValidator.validate: more than one regex test')
-            self.mode = e.operand.func.attr  # type: ignore[union-attr]
-            self.validate_line = st.lineno
-        ctx.need(self.mode is not None and n_raise_tests == 1, f'{F_VLIB}::RegexValidator.validate: regex test or maxlen test missing')
-        for helper, cls in (('anyof', 'MultipleValidator'), ('oneof', 'SetValidator')):
-            ctx.need(m.has_func(helper), f'{F_VLIB}::{helper} vanished')
-
-    def language(self, ctx: Ctx, m: pf.Module, e: ast.AST) -> Tuple[R.Lang, dict]:
-        """Language admitted by a validator expression in module m (for str inputs)."""
-        if isinstance(e, ast.Call):
-            f = pf.dotted(e.func)
-            origin = m.imports().get(f or '', '')
-            if f and origin.endswith('validate.' + f) or origin == 'hailtop.utils.validate.' + (f or ''):
-                if f == 'regex':
-                    ctx.need(not any(k.arg is None for k in e.keywords) and not any(isinstance(a, ast.Starred) for a in e.args), 'regex(): star arguments')
-                    bound: Dict[str, Optional[ast.AST]] = {p: self.regex_defaults.get(p) for p in self.regex_params}
-                    for p, a in zip(self.regex_params, e.args):
-                        bound[p] = a
-                    for k in e.keywords:
-                        ctx.need(k.arg in bound, f'regex(): unknown keyword {k.arg}')
-                        bound[k.arg] = k.value  # type: ignore[index]
-                    pat_e, obj_e, max_e = (bound.get(self.to_ctor[c]) for c in ('pattern', 're_obj', 'maxlen'))
-                    info: dict = {}
-                    if obj_e is not None and not (isinstance(obj_e, ast.Constant) and obj_e.value is None):
-                        rd = sp.resolve_regex(m, None, obj_e)
-                        info['object'] = f'{rd.rel}::{rd.symbol}' if rd.symbol else rd.where
+            if isinstance(st, ast.Expr) and isinstance(st.value, ast.Call) and pf.nsrc(st.value.func) == 'super().__init__':
+                base = self._base(owner)
+                self.ctx.need(base is not None, f'{what}: super() without a base class')
+                sargs: List[_Val] = []
+                for x in st.value.args:
+                    if isinstance(x, ast.Name) and x.id in bound:
+                        self.ctx.need(isinstance(bound[x.id], _Val), f'{what}: *args passed on')
+                        sargs.append(bound[x.id])
                     else:
-                        ctx.need(pat_e is not None, 'regex(): no pattern')
-                        rd = sp.RegexDef(sp.const_string(m, None, pat_e), 0, f'{m.rel}: {pf.nsrc(e)}', e, m.rel, None)
-                        info['object'] = 're.compile(' + repr(rd.pattern) + ')'
-                    info['pattern'] = rd.pattern
-                    info['mode'] = self.mode
-                    L = R.from_regex(rd.pattern, rd.flags, self.mode or 'fullmatch')
-                    if max_e is not None and not (isinstance(max_e, ast.Constant) and max_e.value is None):
-                        ctx.need(isinstance(max_e, ast.Constant) and isinstance(max_e.value, int) and 0 <= max_e.value <= 400, 'regex(): maxlen not a small literal')
-                        L = L & R.lang(R.rep(R.anychar(), 0, max_e.value), f'len<={max_e.value}')  # type: ignore[union-attr]
-                        info['maxlen'] = max_e.value  # type: ignore[union-attr]
-                    return L, info
-                if f == 'anyof':
-                    parts = [self.language(ctx, m, a) for a in e.args]
-                    ctx.need(parts and not e.keywords, 'anyof(): no alternatives')
-                    L = parts[0][0]
-                    for x, _ in parts[1:]:
-                        L = L | x
-                    return L, {'anyof': [i for _, i in parts]}
-                if f == 'oneof':
-                    lits = self._oneof_items(ctx, m, e)
-                    return R.lang(R.alt(*[R.lit(s) for s in lits]) if lits else R.chars(R.CharSet.empty()), f'oneof{tuple(lits)}'), {'oneof': lits}
-        if isinstance(e, ast.Name) and m.imports().get(e.id, '').endswith('validate.str_type'):
-            return R.everything(), {'str_type': True}
+                        sargs.append(_Val(self.m, x))
+                self.ctx.need(not st.value.keywords, f'{what}: super().__init__ keywords')
+                attrs.update(self._construct(base, sargs, {}))  # type: ignore[arg-type]
+                continue
+            tgt = st.targets[0] if isinstance(st, ast.Assign) and len(st.targets) == 1 else getattr(st, 'target', None)
+            val = getattr(st, 'value', None)
+            self.ctx.need(isinstance(st, (ast.Assign, ast.AnnAssign)) and isinstance(tgt, ast.Attribute) and isinstance(tgt.value, ast.Name)
+                          and tgt.value.id == 'self' and val is not None, f'{what}: unrecognised statement `{pf.nsrc(st)[:70]}`')
+            if isinstance(val, ast.Name) and val.id in bound:
+                attrs[tgt.attr] = bound[val.id]  # type: ignore[union-attr]
+            else:
+                attrs[tgt.attr] = ('expr', val, bound)  # type: ignore[union-attr]
+        return attrs
+
+    def _attr_closed(self, attrs: Dict[str, Any], name: str) -> ast.expr:
+        v = attrs[name]
+        if isinstance(v, tuple) and v and v[0] == 'expr':
+            _k, e, bound = v
+            lib = self
+
+            class S(ast.NodeTransformer):
+                def visit_Name(self, node: ast.Name):  # noqa: N802
+                    if node.id in bound and isinstance(node.ctx, ast.Load):
+                        return lib._close(bound[node.id])
+                    return node
+            import copy
+            return _Fold().visit(S().visit(copy.deepcopy(e)))
+        return self._close(v)
+
+    def _specialised_validate(self, cls: ast.ClassDef, attrs: Dict[str, Any], depth: int = 0) -> Tuple[List[ast.stmt], str]:
+        """Body of cls.validate with self.<attr> replaced by the constructor arguments and super().validate inlined; -> (stmts, obj name)"""
+        import copy
+        self.ctx.need(depth < 4, f'{F_VLIB}::{cls.name}: validate chain too deep')
+        val, owner = self._lookup(cls, 'validate')
+        self.ctx.need(val is not None and owner is not None, f'{F_VLIB}::{cls.name}: no validate method')
+        assert val is not None and owner is not None
+        ps = [a.arg for a in val.args.args]
+        self.ctx.need(len(ps) == 3 and not val.args.vararg and not val.args.kwarg and not val.args.kwonlyargs,
+                      f'{F_VLIB}::{owner.name}.validate: parameters changed')
+        obj = ps[2]
+        lib = self
+        used: List[str] = []
+
+        class S(ast.NodeTransformer):
+            def visit_Attribute(self, node: ast.Attribute):  # noqa: N802
+                if isinstance(node.value, ast.Name) and node.value.id == 'self' and isinstance(node.ctx, ast.Load) and node.attr in attrs:
+                    used.append(node.attr)
+                    return lib._attr_closed(attrs, node.attr)
+                return self.generic_visit(node)
+
+            def visit_Raise(self, node: ast.Raise):  # noqa: N802
+                return node  # messages are not evaluated
+
+        out: List[ast.stmt] = []
+        for st in val.body:
+            if isinstance(st, ast.Expr) and isinstance(st.value, ast.Call) and pf.nsrc(st.value.func) == 'super().validate':
+                base = self._base(owner)
+                self.ctx.need(base is not None and [pf.nsrc(a) for a in st.value.args] == ps[1:] and not st.value.keywords,
+                              f'{F_VLIB}::{owner.name}.validate: unrecognised `{pf.nsrc(st)}`')
+                inner, obj2 = self._specialised_validate(base, attrs, depth + 1)  # type: ignore[arg-type]
+                self.ctx.need(obj2 == obj, f'{F_VLIB}::{owner.name}.validate: the base class names the value differently')
+                out += inner
+                continue
+            out.append(_Fold().visit(S().visit(copy.deepcopy(st))))
+        return out, obj
+
+    # ---- combinators recognised by shape
+    _MULTI_LOOP = ('for checker in self.checkers:\n    try:\n        checker.validate(name, obj)\n        return\n'
+                   '    except ValidationError as e:\n        excs.append(e)')
+
+    def _is_multiple(self, cls: ast.ClassDef) -> bool:
+        val = self._method(cls, 'validate')
+        if val is None or cls.name != 'MultipleValidator':
+            return False
+        body = [st for st in val.body if not (isinstance(st, ast.Expr) and isinstance(st.value, ast.Constant))]
+        ok = len(body) == 3 and pf.nsrc(body[0]) == pf.norm('excs = []') and pf.nsrc(body[1]) == pf.norm(self._MULTI_LOOP) \
+            and isinstance(body[2], ast.If) and pf.nsrc(body[2].test) == 'excs' and not body[2].orelse and isinstance(body[2].body[-1], ast.Raise)
+        self.ctx.need(ok, f'{F_VLIB}::MultipleValidator.validate: shape not recognised (expected: first checker that accepts wins, else raise)')
+        return True
+
+    def _is_nullable(self, cls: ast.ClassDef) -> bool:
+        val = self._method(cls, 'validate')
+        if val is None or cls.name != 'NullableValidator':
+            return False
+        body = [st for st in val.body if not (isinstance(st, ast.Expr) and isinstance(st.value, ast.Constant))]
+        ok = len(body) == 1 and pf.nsrc(body[0]) == pf.norm('if obj is not None:\n    self.checker.validate(name, obj)')
+        self.ctx.need(ok, f'{F_VLIB}::NullableValidator.validate: shape not recognised')
+        return True
+
+    def check_keyed_getitem(self, ctx: Ctx) -> None:
+        """KeyedValidator.__getitem__(key) returns the validator given for that key."""
+        cls = self.classes.get('KeyedValidator')
+        ctx.need(cls is not None, f'{F_VLIB}: KeyedValidator vanished')
+        gi, init = self._method(cls, '__getitem__'), self._method(cls, '__init__')  # type: ignore[arg-type]
+        ctx.need(gi is not None and init is not None, f'{F_VLIB}::KeyedValidator: __getitem__/__init__ vanished')
+        body = [st for st in gi.body if not (isinstance(st, ast.Expr) and isinstance(st.value, ast.Constant))]  # type: ignore[union-attr]
+        ctx.need(len(body) == 1 and pf.nsrc(body[0]) == 'return self.checkers[key][0]', f'{F_VLIB}::KeyedValidator.__getitem__: shape not recognised')
+        stores = [pf.nsrc(st) for st in ast.walk(init) if isinstance(st, ast.Assign) and pf.nsrc(st.targets[0]).startswith('self.checkers[')]  # type: ignore[arg-type]
+        ctx.need(sorted(stores) == ['self.checkers[k.key] = (v, True)', 'self.checkers[k] = (v, False)'], f'{F_VLIB}::KeyedValidator.__init__: shape not recognised')
+
+    # ---- validator expression -> language
+    def _lib_symbol(self, m: pf.Module, name: str) -> Optional[str]:
+        """The name of the library-level object a Name in module m refers to (imported from the library, or m is the library)."""
+        if m is self.m or m.rel == F_VLIB:
+            return name
+        origin = sp.imports_of(m).get(name, '')
+        if origin in ('hailtop.utils.validate.' + name, 'hailtop.utils.validate.validate.' + name) or origin.endswith('.validate.' + name):
+            r = sp.resolve_import(m, name, sp.PACKAGE_ROOTS)
+            if r is not None and r[0].rel.startswith('hail/python/hailtop/utils/validate/'):
+                return r[1]
+        return None
+
+    def language(self, ctx: Ctx, m: pf.Module, e: ast.AST, depth: int = 0) -> Tuple[R.Lang, dict]:
+        """Language admitted by a validator expression in module m (for str inputs)."""
+        ctx.need(depth < 8, f'{m.rel}: validator expression nested too deeply')
+        if isinstance(e, ast.Name):
+            sym = self._lib_symbol(m, e.id)
+            if sym is not None:
+                L, info = self.language(ctx, self.m, sp.module_const(self.m, sym), depth + 1)
+                return L, dict(info, name=sym)
+            if e.id in sp.imports_of(m):
+                r = sp.resolve_import(m, e.id, dict(sp.PACKAGE_ROOTS, batch='batch/batch'))
+                ctx.need(r is not None, f'{m.rel}: cannot follow the import of the validator `{e.id}`')
+                return self.language(ctx, r[0], ast.Name(id=r[1], ctx=ast.Load()), depth + 1)  # type: ignore[index]
+            L, info = self.language(ctx, m, sp.module_const(m, e.id), depth + 1)
+            return L, dict(info, name=e.id)
+        if isinstance(e, ast.Call) and isinstance(e.func, ast.Name):
+            sym = self._lib_symbol(m, e.func.id)
+            if sym is None:
+                raise AnalysisError(f'{m.rel}: unrecognised validator expression `{pf.nsrc(e)[:80]}`')
+            args, kwargs = self._call_args(m, e)
+            if sym in self.classes:
+                return self._instance(ctx, self.classes[sym], args, kwargs, depth)
+            ctx.need(self.m.has_func(sym), f'{F_VLIB}: {sym} is neither a validator class nor a factory function')
+            fn = self.m.func(sym)
+            body = [s for s in fn.body if not (isinstance(s, ast.Expr) and isinstance(s.value, ast.Constant))]
+            ctx.need(len(body) == 1 and isinstance(body[0], ast.Return) and isinstance(body[0].value, ast.Call)
+                     and isinstance(body[0].value.func, ast.Name) and body[0].value.func.id in self.classes and not body[0].value.keywords,
+                     f'{F_VLIB}::{sym}: expected `return <ValidatorClass>(...)`')
+            ret: ast.Call = body[0].value  # type: ignore[assignment]
+            bound = self._bind(f'{F_VLIB}::{sym}', fn, False, args, kwargs)
+            cargs: List[_Val] = []
+            for a in ret.args:
+                if isinstance(a, ast.Name) and a.id in bound:
+                    b = bound[a.id]
+                    ctx.need(isinstance(b, _Val), f'{F_VLIB}::{sym}: *{a.id} passed as one argument')
+                    cargs.append(b)
+                elif isinstance(a, ast.Call) and pf.dotted(a.func) in ('set', 'list', 'tuple', 'frozenset') and len(a.args) == 1 \
+                        and isinstance(a.args[0], ast.Name) and isinstance(bound.get(a.args[0].id), list):
+                    cargs.append(bound[a.args[0].id])  # the *args collected into a collection
+                else:
+                    ctx.need(not any(isinstance(x, ast.Name) and x.id in bound for x in ast.walk(a)), f'{F_VLIB}::{sym}: unrecognised constructor argument `{pf.nsrc(a)}`')
+                    cargs.append(_Val(self.m, a))
+            return self._instance(ctx, self.classes[ret.func.id], cargs, {}, depth)  # type: ignore[union-attr]
         raise AnalysisError(f'{m.rel}: unrecognised validator expression `{pf.nsrc(e)[:80]}`')
 
-    def _oneof_items(self, ctx: Ctx, m: pf.Module, e: ast.Call) -> List[str]:
-        out: List[str] = []
-        for a in e.args:
-            if isinstance(a, ast.Starred):
-                v = a.value
-                ctx.need(isinstance(v, ast.Name), 'oneof(*<expr>): not a name')
-                tup = self._resolve_tuple(ctx, m, v.id)  # type: ignore[union-attr]
-                out += tup
-            else:
-                out.append(sp.const_string(m, None, a))
-        return out
+    def _elements(self, v: Any) -> List[_Val]:
+        if isinstance(v, list):
+            return v
+        return [_Val(mm, ee) for mm, ee in self._sequence(v.m, v.e)]
 
-    @staticmethod
-    def _resolve_tuple(ctx: Ctx, m: pf.Module, name: str) -> List[str]:
-        if name in m.imports():
-            r = sp.resolve_import(m, name, sp.PACKAGE_ROOTS)
-            ctx.need(r is not None, f'{m.rel}: cannot follow the import of {name}')
-            m, name = r  # type: ignore[misc]
-        v = sp.module_const(m, name)
-        ctx.need(isinstance(v, (ast.Tuple, ast.List)), f'{m.rel}: {name} is not a tuple literal')
-        return [sp.const_string(m, None, x) for x in v.elts]  # type: ignore[union-attr]
+    def _instance(self, ctx: Ctx, cls: ast.ClassDef, args: List[Any], kwargs: Dict[str, _Val], depth: int) -> Tuple[R.Lang, dict]:
+        if self._is_multiple(cls):
+            attrs = self._construct(cls, args, kwargs)
+            ctx.need('checkers' in attrs and not (isinstance(attrs['checkers'], tuple)), f'{F_VLIB}::MultipleValidator: checkers not passed through')
+            parts = [self.language(ctx, v.m, v.e, depth + 1) for v in self._elements(attrs['checkers'])]
+            if not parts:
+                return R.everything(), {'anyof': []}
+            L = parts[0][0]
+            for x, _ in parts[1:]:
+                L = L | x
+            return L, {'anyof': [i for _, i in parts]}
+        if self._is_nullable(cls):
+            attrs = self._construct(cls, args, kwargs)
+            ctx.need(isinstance(attrs.get('checker'), _Val), f'{F_VLIB}::NullableValidator: wrapped validator not passed through')
+            L, info = self.language(ctx, attrs['checker'].m, attrs['checker'].e, depth + 1)
+            return L, {'nullable': info}
+        # generic: specialise validate and translate it
+        # (list arguments were already flattened into [_Val]; _construct accepts them as positional values)
+        attrs = self._construct(cls, args, kwargs)
+        stmts, obj = self._specialised_validate(cls, attrs)
+        fn = ast.FunctionDef(name=f'{cls.name}.validate', args=ast.arguments(posonlyargs=[], args=[ast.arg(arg='self'), ast.arg(arg='name'), ast.arg(arg=obj)],
+                                                                          kwonlyargs=[], kw_defaults=[], defaults=[]),
+                             body=stmts or [ast.Pass()], decorator_list=[], type_params=[])
+        ast.fix_missing_locations(fn)
+        L, tr = sp.function_language(self.m, fn, obj, 'no-raise')
+        info: dict = {'class': cls.name, 'idioms': list(tr.idioms),
+                      'tests': [(pf.nsrc(s.test) if isinstance(s, ast.If) else 'after ' + pf.nsrc(s))[:120] for s in stmts
+                                if not (isinstance(s, ast.If) and isinstance(s.test, ast.Constant)) and not isinstance(s, (ast.Pass, ast.Expr))]}
+        if tr.regex_uses:
+            info['regex'] = [{k: u[k] for k in ('pattern', 'flags', 'mode')} for u in tr.regex_uses]
+            self.mode = tr.regex_uses[-1]['mode']
+        return L, info
+
+
+def _describe(info: dict) -> str:
+    """One-line description of what a validator tests (from ValidatorLib.language's info)."""
+    if 'anyof' in info:
+        return 'any of [' + '; '.join(_describe(i) for i in info['anyof']) + ']'
+    if 'nullable' in info:
+        return 'nullable ' + _describe(info['nullable'])
+    tests = info.get('tests') or []
+    return f"{info.get('class', 'validator')} raising when " + (' / '.join(tests) if tests else 'never')
 
 
 def _dict_entry(ctx: Ctx, d: ast.AST, key: str, where: str) -> ast.AST:
@@ -310,12 +627,106 @@ def _dict_entry(ctx: Ctx, d: ast.AST, key: str, where: str) -> ast.AST:
     raise AnalysisError(f'{where}: key {key!r} not found')
 
 
+def _keyed_dict(ctx: Ctx, m: pf.Module, e: ast.AST, where: str, depth: int = 3) -> ast.Dict:
+    """The dict literal of a `keyed({...})` validator expression (through module-level names)."""
+    if isinstance(e, ast.Name) and depth > 0 and e.id not in sp.imports_of(m):
+        return _keyed_dict(ctx, m, sp.module_const(m, e.id), where, depth - 1)
+    ctx.need(isinstance(e, ast.Call) and pf.dotted(e.func) == 'keyed' and len(e.args) == 1 and not e.keywords
+             and sp.imports_of(m).get('keyed', '').endswith('validate.keyed'), f'{where} is not keyed({{...}})')
+    d = e.args[0]  # type: ignore[union-attr]
+    if isinstance(d, ast.Name) and d.id not in sp.imports_of(m):
+        d = sp.module_const(m, d.id)
+    ctx.need(isinstance(d, ast.Dict) and all(k is not None for k in d.keys), f'{where}: keyed() of something that is not a plain dict literal')
+    return d  # type: ignore[return-value]
+
+
 def _server_validators(ctx: Ctx, mv: pf.Module) -> Dict[str, ast.AST]:
-    jv = sp.module_const(mv, 'job_validator')
-    ctx.need(isinstance(jv, ast.Call) and pf.dotted(jv.func) == 'keyed' and len(jv.args) == 1, 'job_validator is not keyed({...})')
-    res = _dict_entry(ctx, jv.args[0], 'resources', 'job_validator')  # type: ignore[union-attr]
-    ctx.need(isinstance(res, ast.Call) and pf.dotted(res.func) == 'keyed' and len(res.args) == 1, "job_validator['resources'] is not keyed({...})")
-    return {k: _dict_entry(ctx, res.args[0], k, "job_validator['resources']") for k in RESOURCES}  # type: ignore[union-attr]
+    jv = _keyed_dict(ctx, mv, ast.Name(id='job_validator', ctx=ast.Load()), 'job_validator')
+    res = _keyed_dict(ctx, mv, _dict_entry(ctx, jv, 'resources', 'job_validator'), "job_validator['resources']")
+    return {k: _dict_entry(ctx, res, k, "job_validator['resources']") for k in RESOURCES}
+
+
+def _check_validation_applied(ctx: Ctx, vlib: 'ValidatorLib', mv: pf.Module, server: Dict[str, R.Lang], client: Dict[str, R.Lang],
+                              server_exprs: Dict[str, ast.AST]) -> None:
+    """validate_and_clean_jobs applies job_validator to every job; the deprecated `pvc_size` key, which is moved into
+    resources['storage'] before that, is accepted for exactly the strings the client accepts as a storage size."""
+    fname = 'validate_and_clean_jobs'
+    ctx.need(mv.has_func(fname), f'{F_VALIDATE}: {fname} vanished')
+    fn = mv.func(fname)
+    loops = [st for st in fn.body if isinstance(st, ast.For)]
+    ctx.need(len(loops) == 1 and isinstance(loops[0].target, (ast.Name, ast.Tuple)), f'{F_VALIDATE}::{fname}: expected one loop over the jobs')
+    loop = loops[0]
+    tnames = [x.id for x in ast.walk(loop.target) if isinstance(x, ast.Name)]
+    applied = None
+    deprecated = None
+    for i, st in enumerate(loop.body):
+        if isinstance(st, ast.Expr) and isinstance(st.value, ast.Call):
+            c = st.value
+            if pf.dotted(c.func) == 'job_validator.validate' and len(c.args) == 2 and isinstance(c.args[1], ast.Name) and c.args[1].id in tnames:
+                applied = (i, c)
+            if pf.dotted(c.func) == 'handle_deprecated_job_keys' and len(c.args) == 2 and isinstance(c.args[1], ast.Name) and c.args[1].id in tnames:
+                deprecated = (i, c)
+    anywhere = [c for c in pf.calls_in(fn) if pf.dotted(c.func) == 'job_validator.validate']
+    cons = f'{F_VALIDATE}::{fname}::job_validator.validate(job) for every job'
+    if applied is None:
+        ctx.need(not anywhere, f'{F_VALIDATE}::{fname}: job_validator.validate is called in a shape that is not recognised')
+        ctx.bad('R1', cons, f'{fname} never applies job_validator to the jobs: the server accepts every resource string, the client does not',
+                mv.path, fn.lineno)
+        return
+    ctx.ok('R1', cons, {'statement': pf.nsrc(applied[1])})
+    # ---- pvc_size
+    hname = 'handle_deprecated_job_keys'
+    cons = f"{F_VALIDATE}::{hname}::job['pvc_size'] accepted == client storage strings"
+    if not mv.has_func(hname) or deprecated is None:
+        ctx.need(not any(isinstance(x, ast.Constant) and x.value == 'pvc_size' for x in ast.walk(mv.tree)),
+                 f"{F_VALIDATE}: 'pvc_size' is handled somewhere, but not through {hname}(i, job) in {fname}")
+        ctx.ok('R1', cons, 'the deprecated pvc_size key is not handled any more', nontrivial=False)
+        return
+    h = mv.func(hname)
+    hp = [a.arg for a in h.args.args]
+    ctx.need(len(hp) == 2, f'{F_VALIDATE}::{hname}: parameters changed')
+    job = hp[1]
+    pvc_src = f"{job}['pvc_size']"
+
+    def is_pvc(e: ast.AST) -> bool:
+        e = pf.resolve_expr(h, e) if isinstance(e, ast.Name) else e
+        return pf.nsrc(e) == pvc_src
+
+    # where does the value go?
+    stores = [st for st in ast.walk(h) if isinstance(st, ast.Assign) and len(st.targets) == 1 and isinstance(st.targets[0], ast.Subscript)
+              and isinstance(st.targets[0].slice, ast.Constant) and st.targets[0].slice.value in RESOURCES and is_pvc(st.value)]
+    ctx.need(len(stores) == 1, f"{F_VALIDATE}::{hname}: expected exactly one `resources[<key>] = job['pvc_size']`, found {len(stores)}")
+    key = stores[0].targets[0].slice.value  # type: ignore[union-attr]
+    ctx.need(isinstance(stores[0].targets[0].value, ast.Name), f'{F_VALIDATE}::{hname}: pvc_size is stored somewhere that is not recognised')  # type: ignore[union-attr]
+    # validators applied to the value inside the handler
+    L: R.Lang = R.everything()
+    used = []
+    for c in pf.calls_in(h):
+        if isinstance(c.func, ast.Attribute) and c.func.attr == 'validate' and len(c.args) == 2 and is_pvc(c.args[1]):
+            v = c.func.value
+            # job_validator['resources']['storage'] -> the dict entry (KeyedValidator.__getitem__)
+            path = []
+            while isinstance(v, ast.Subscript) and isinstance(v.slice, ast.Constant) and isinstance(v.slice.value, str):
+                path.append(v.slice.value)
+                v = v.value
+            if path:
+                vlib.check_keyed_getitem(ctx)
+                cur: ast.AST = v
+                for k in reversed(path):
+                    cur = _dict_entry(ctx, _keyed_dict(ctx, mv, cur, pf.nsrc(c.func.value)), k, pf.nsrc(c.func.value))
+                v = cur
+            Lv, _info = vlib.language(ctx, mv, v)
+            L = L & Lv
+            used.append(pf.nsrc(c.func.value))
+    # afterwards the job validator sees the value under resources[key]
+    ctx.need(deprecated[0] < applied[0], f'{F_VALIDATE}::{fname}: {hname} runs after job_validator.validate, which then sees the deprecated keys; not recognised')
+    L = L & server[key]
+    used.append(f"job_validator['resources'][{key!r}] afterwards")
+    cmp = R.compare(L, client[key])
+    ctx.check(cmp.equal, 'R1', cons,
+              f"the deprecated key pvc_size (stored as resources[{key!r}], checked by {' and '.join(used)}) "
+              + (f'admits {cmp.only_a!r}, which the client side rejects as a {key} size' if cmp.only_a is not None
+                 else f'rejects {cmp.only_b!r}, which the client side accepts as a {key} size'), mv.path, h.lineno, detail={'validators': used, 'stored_as': key})
 
 
 # --------------------------------------------------------------------------------------
@@ -481,8 +892,14 @@ class Evaluator:
             return sub
         if isinstance(e, ast.Call) and not e.keywords:
             if e is self.p.call:
-                matcher, param = getattr(self.compiled, self.p.mode), self.p.param
-                return lambda env: matcher(env[param])
+                matcher, subj = getattr(self.compiled, self.p.mode), self.expr(self.p.subject)
+
+                def do_match(env):
+                    v = subj(env)
+                    if not isinstance(v, str):
+                        raise AnalysisError(f'{self.p.name}: the regex subject is not a string in the evaluator')
+                    return matcher(v)
+                return do_match
             args = [self.expr(a) for a in e.args]
             f = e.func
             if isinstance(f, ast.Attribute) and f.attr == 'group' and isinstance(f.value, ast.Name):
@@ -494,6 +911,18 @@ class Evaluator:
                         raise AnalysisError(f'{self.p.name}: `{pf.nsrc(e)}` is not applied to the match object')
                     return mo.group(*[a(env) for a in args])
                 return group
+            if isinstance(f, ast.Attribute) and f.attr in ('strip', 'lstrip', 'rstrip', 'lower', 'upper', 'casefold', 'replace') and len(args) <= 2:
+                base, meth = self.expr(f.value), f.attr
+
+                def strmeth(env):
+                    b = base(env)
+                    if not isinstance(b, str):
+                        raise AnalysisError(f'{self.p.name}: `{pf.nsrc(e)}` is not applied to a string')
+                    try:
+                        return getattr(b, meth)(*[a(env) for a in args])
+                    except TypeError as ex:
+                        raise _EvalRaise(f'TypeError: {ex}') from ex
+                return strmeth
             name = pf.dotted(f) or ''
             head = name.split('.')[0]
             if head in pf.assignments(self.p.fn):
@@ -700,6 +1129,57 @@ def _check_front_end(ctx: Ctx, parse: Dict[str, ParseFn], server: Dict[str, R.La
 # --------------------------------------------------------------------------------------
 
 
+HAILCTL_KEYS = {'QUERY_BATCH_DRIVER_CORES': 'cpu', 'QUERY_BATCH_WORKER_CORES': 'cpu', 'QUERY_BATCH_DRIVER_MEMORY': 'memory',
+                'QUERY_BATCH_WORKER_MEMORY': 'memory'}
+
+
+def _check_hailctl(ctx: Ctx, client: Dict[str, R.Lang], handled: set) -> int:
+    """`hailctl config set query/batch_{driver,worker}_{cores,memory}`: the validation predicate registered for the key - however
+    it is written - accepts exactly the client language of that resource (these values are sent to the server as they are)."""
+    m = pf.load(F_HAILCTL)
+    found: Dict[str, Tuple[ast.AST, ast.AST]] = {}
+    for d in ast.walk(m.tree):
+        if not isinstance(d, ast.Dict):
+            continue
+        for k, v in zip(d.keys, d.values):
+            name = pf.dotted(k) if k is not None else None
+            if name and name.startswith('ConfigVariable.') and name.split('.', 1)[1] in HAILCTL_KEYS:
+                ctx.need(name.split('.', 1)[1] not in found, f'{F_HAILCTL}: {name} is registered twice')
+                found[name.split('.', 1)[1]] = (k, v)
+    ctx.need(set(found) == set(HAILCTL_KEYS), f'{F_HAILCTL}: config variables not found: {sorted(set(HAILCTL_KEYS) - set(found))}')
+    n = 0
+    for key, res in HAILCTL_KEYS.items():
+        _k, v = found[key]
+        ctx.need(isinstance(v, ast.Call) and pf.dotted(v.func) == 'ConfigVariableInfo', f'{F_HAILCTL}: {key} is not a ConfigVariableInfo(...)')
+        val = next((kw.value for kw in v.keywords if kw.arg == 'validation'), v.args[1] if len(v.args) > 1 else None)  # type: ignore[union-attr]
+        ctx.need(isinstance(val, ast.Tuple) and len(val.elts) == 2, f'{F_HAILCTL}: {key}: validation is not a (predicate, message) pair')
+        pred = val.elts[0]  # type: ignore[union-attr]
+        fn = m.enclosing_func(v)
+        where = f'{F_HAILCTL}::{m.qualname(fn) if fn is not None else "<module>"}'
+        if isinstance(pred, ast.Lambda):
+            ctx.need(len(pred.args.args) == 1 and not pred.args.vararg and not pred.args.kwarg, f'{F_HAILCTL}: {key}: predicate is not a one-parameter lambda')
+            x = pred.args.args[0].arg
+            tr = sp.Translator(m, fn, x)
+            L = tr.cond(pred.body)
+            text = f'lambda {x}: {pf.nsrc(pred.body)}'
+            for c in ast.walk(pred):
+                handled.add(id(c))
+        else:
+            ctx.need(isinstance(pred, ast.Name) and m.has_func(pred.id), f'{F_HAILCTL}: {key}: predicate `{pf.nsrc(pred)}` is neither a lambda nor a module function')
+            h = m.func(pred.id)  # type: ignore[union-attr]
+            hp = [a.arg for a in h.args.posonlyargs + h.args.args]
+            ctx.need(len(hp) == 1, f'{F_HAILCTL}: {key}: predicate {pred.id} takes {len(hp)} parameters')  # type: ignore[union-attr]
+            L, tr = sp.function_language(m, h, hp[0], 'bool')
+            text = f'{pred.id}'  # type: ignore[union-attr]
+        cmp = R.compare(L, client[res])
+        n += 1
+        ctx.check(cmp.equal, 'R1', f'{where}::{text}',
+                  f'the validation predicate of hailctl config variable {key} (`{text}`) does not accept the same {res} strings as the batch client/server: '
+                  + (f'accepts {cmp.only_a!r}, which they reject' if cmp.only_a is not None else f'rejects {cmp.only_b!r}, which they accept'),
+                  m.path, getattr(pred, 'lineno', 0), detail={'resource': res, 'config_variable': key, 'idioms': tr.idioms})
+    return n
+
+
 def _check_other_users(ctx: Ctx, parse: Dict[str, ParseFn], client: Dict[str, R.Lang], files: List[str]) -> None:
     """Every other matching call that uses one of the three patterns/objects: when it sits in a one-parameter lambda (a validation
     predicate) the whole lambda body is translated and must accept exactly the client language of that resource (named memory types
@@ -709,6 +1189,9 @@ def _check_other_users(ctx: Ctx, parse: Dict[str, ParseFn], client: Dict[str, R.
         sym_to_res['hailtop.batch_client.parse.' + obj] = res
         sym_to_res['hailtop.batch_client.parse.' + pat] = res
     n = 0
+    handled: set = set()
+    if F_HAILCTL in files:
+        n += _check_hailctl(ctx, client, handled)
     for rel in files:
         m = pf.load(rel)
         local = {name: sym_to_res[o] for name, o in sp.imports_of(m).items() if o in sym_to_res}
@@ -717,6 +1200,8 @@ def _check_other_users(ctx: Ctx, parse: Dict[str, ParseFn], client: Dict[str, R.
         par = m.parents()
         for node in ast.walk(m.tree):
             if not isinstance(node, ast.Call) or not isinstance(node.func, ast.Attribute) or node.func.attr not in R.MODES:
+                continue
+            if id(node) in handled:
                 continue
             uses = [x.id for a in list(node.args) + [node.func] for x in ast.walk(a) if isinstance(x, ast.Name) and x.id in local]
             if not uses:
@@ -778,7 +1263,8 @@ def run(ctx: Ctx) -> None:
                        'points; the unit table is constant-folded; the parse arithmetic is interpreted by our own evaluator on a family of '
                        'accepted spellings and compared with exact rational arithmetic. No repository code is run.')
     ctx.rule('R1', 'client = server: validator language == parse-function language per resource (mode-aware); None iff no match; front-end '
-                   'parse sites and defaults are covered; every other use of the patterns accepts the same language', 17)
+                   'parse sites and defaults are covered; every other use of the patterns accepts the same language; job_validator is applied to every job '
+                   'and the deprecated pvc_size key is accepted for exactly the client storage strings', 19)
     ctx.rule('R2', 'L(regex) == documented grammar [+]?(D+|D*.D+)unit?B? ; group 1 == unsigned decimal; group 2 == unit set == keys of '
                    'conv_factor with values 1000^n/1024^n', 12)
     ctx.rule('R3', 'each value-returning statement of the parse functions yields floor(value*1000) mCPU / ceil(value*factor) bytes exactly '
@@ -859,12 +1345,12 @@ def run(ctx: Ctx) -> None:
         cmp = R.compare(L, client)
         msg = ''
         if not cmp.equal:
-            msg = (f"the job validator for resources[{res!r}] (`{pf.nsrc(server_exprs[res])}`; RegexValidator.validate uses re_obj.{vlib.mode}) admits {cmp.only_a!r}, "
-                   f"which {p.name} (`{pf.nsrc(p.call)}`) rejects" if cmp.only_a is not None else
-                   f"the job validator for resources[{res!r}] (`{pf.nsrc(server_exprs[res])}`; RegexValidator.validate uses re_obj.{vlib.mode}) rejects {cmp.only_b!r}, "
-                   f"which the client side ({p.name}, `{pf.nsrc(p.call)}`" + (', or a named memory type' if res == 'memory' else '') + ') accepts')
+            srv = f"the job validator for resources[{res!r}] (`{pf.nsrc(server_exprs[res])}`: {_describe(info)})"
+            msg = (f"{srv} admits {cmp.only_a!r}, which {p.name} (`{pf.nsrc(p.call)}`) rejects" if cmp.only_a is not None else
+                   f"{srv} rejects {cmp.only_b!r}, which the client side ({p.name}, `{pf.nsrc(p.call)}`" + (', or a named memory type' if res == 'memory' else '') + ') accepts')
         ctx.check(cmp.equal, 'R1', f"{F_VALIDATE}::job_validator['resources'][{res!r}] == {p.name}", msg, mv.path, getattr(server_exprs[res], 'lineno', 0),
                   detail=dict(cmp.describe(), server=info, client_mode=p.mode))
+    _check_validation_applied(ctx, vlib, mv, server, client_lang, server_exprs)
     _check_front_end(ctx, parse, server, named_memory)
     files = [F_HAILCTL, F_VALIDATE, F_FRONT]
     if ctx.tier == 'thorough':
